@@ -39,7 +39,12 @@ from .. import fx_emcalls as fxc
 WN = [800.0, 2500.0]
 TK = {1: 600.0, 2: 1100.0, 3: 1700.0}
 STAR_T = 5000.0
-REL = 1e-9
+# Comparison with the exact B-sums exported by TLC.  Derived from the arithmetic, not from what happens to pass: every term of
+# the layered sum is non-negative and carries a relative error <= 4 (6 tau/mu + 1) u (u = 2^-53; <= 4.4e-13 for the largest
+# slant depth of the exported vectors, 240 ln 2), and the Planck values of the reading mir_wide may differ from the
+# documented formula by <= 1.55e-14 (spec/PlanckTol.tla): 1e-12 + 2 * 1.55e-14, rounded up.  Measured on the unchanged
+# tree over all thorough vectors: <= 1.3e-15.
+REL = 1.04e-12
 S_TRACE = 1000000
 EXP_M10 = math.exp(-10.0)
 
@@ -47,6 +52,41 @@ EXP_M10 = math.exp(-10.0)
 def bcols():
     """B[t][w] of the specification filled by the harness's Planck evaluation (per unit pi)."""
     return [dict((t, fx.planck_b(WN[w], TK[t])) for t in TK) for w in range(len(WN))]
+
+
+U16 = 1e-16          # unit of the tolerances exported by spec/PlanckTol.tla
+REL_SUM = 1e-12      # arithmetic of the layered sum (see the comment on InterpTable in spec/MC_Emission.tla)
+
+
+class Interp:
+    """One reading of the specification's uninterpreted Planck table (spec/MC_Emission.tla: InterpTable, exported by
+    TLC as INTERP records): wavenumbers, the temperature behind every table index, the star, and the comparison
+    tolerance the specification licenses for it.  Interp() is the reading every exported vector is replayed under
+    (the driver's WN / TK / STAR_T at 1e-9); the others span the spacing of the layer temperatures and the regime of
+    h c nu / k T and are compared at 1e-12 + twice the largest licensed Planck rounding."""
+
+    def __init__(self, d=None):
+        if d is None:
+            self.id, self.idx, self.wn, self.tk, self.star, self.rel, self.prefix = 'mir_wide', 1, list(WN), dict(TK), STAR_T, REL, ''
+            self.iso_tol = 1e-12
+            return
+        self.id, self.idx = d['id'], d['idx']
+        self.wn = [float(x) for x in d['wn']]
+        self.tk = dict((t + 1, float(Fraction(int(b) * int(n), int(dd)))) for t, (b, n, dd) in enumerate(d['temps']))
+        self.star = float(d['star'])
+        tol = max(max(max(r) for r in d['tolu']), max(d['startolu'])) * U16
+        self.rel = REL_SUM + 2.0 * tol
+        self.iso_tol = REL_SUM + 2.0 * tol
+        self.prefix = 'interp:%s:' % self.id
+        ts = [self.tk[t] for t in sorted(self.tk)]
+        if not all(a < b for a, b in zip(ts, ts[1:])):
+            raise Machinery('interpretation %s: temperatures %r are not strictly increasing as floats' % (self.id, ts))
+
+    def bcols(self):
+        return [dict((t, fx.planck_b(self.wn[w], self.tk[t])) for t in self.tk) for w in range(len(self.wn))]
+
+    def matches_driver(self):
+        return self.wn == list(WN) and self.tk == dict(TK) and self.star == STAR_T
 
 
 
@@ -72,10 +112,14 @@ def cls_of(v):
 # binding A
 # ----------------------------------------------------------------------------
 
-def check_vector_group(ctx, tp, vecs, cache):
-    """All exported vectors with one temperature profile: one emission + one direct-image model."""
+def check_vector_group(ctx, tp, vecs, cache, ip=None):
+    """All exported vectors with one temperature profile: one emission + one direct-image model, under the reading
+    `ip` of the Planck table (default: the driver's WN / TK / STAR_T)."""
     from taurex.cache import OpacityCache
-    bc = bcols()
+    ip = ip or Interp()
+    WN, TK, STAR_T, REL = ip.wn, ip.tk, ip.star, ip.rel         # shadow the module constants: everything below is per reading
+    ISO = ip.iso_tol
+    bc = ip.bcols()
     temps = [TK[t] for t in tp]
     v0 = vecs[0]
     rp, rs, dist, kd = v0['rp'], v0['rs'], v0['dist'], v0['kd']
@@ -86,9 +130,11 @@ def check_vector_group(ctx, tp, vecs, cache):
     bstar = [fx.planck_b(w, STAR_T) for w in WN]
     done_I = set()
     for v in vecs:
+      if ip.prefix:
+          v = dict(v, interp=ip.idx)
       try:
         e = v['e']
-        cls = cls_of(v)
+        cls = ip.prefix + cls_of(v)
         em.set_layer_tau(e)
         di.table = em.table
         mu_raw, w_raw = fx.raw_quadrature(v['quad'])
@@ -111,7 +157,7 @@ def check_vector_group(ctx, tp, vecs, cache):
                                 vector=dict(v, what='intensity', a=a, w=wi))
                     # the property's consequences, on the real numbers
                     lo, hi = bc[wi][v['tmin']], bc[wi][v['tmax']]
-                    okb = lo * (1 - 1e-12) <= got <= hi * (1 + (EXP_M10 if v['saturated'] else 0.0) + 1e-12)
+                    okb = lo * (1 - ISO) <= got <= hi * (1 + (EXP_M10 if v['saturated'] else 0.0) + ISO)
                     ctx.verdict('hot_cold_bounds', okb, cls=cls, detail='got %r not in [%r, %r(1+e^-10)]' % (got, lo, hi),
                                 vector=dict(v, what='intensity', a=a, w=wi))
         if v['kind'] == 'eclipse':
@@ -127,7 +173,7 @@ def check_vector_group(ctx, tp, vecs, cache):
                 if v['isothermal'] and v['weightsok']:
                     ratio = fx.planck_b(WN[wi], temps[0]) / bstar[wi] * (Fraction(rp, rs) ** 2)
                     r = got / float(ratio)
-                    oki = 1 - 1e-12 <= r <= 1 + (EXP_M10 if v['saturated'] else 0.0) + 1e-12
+                    oki = 1 - ISO <= r <= 1 + (EXP_M10 if v['saturated'] else 0.0) + ISO
                     ctx.verdict('isothermal_identity', oki, cls=cls, detail='flux/blackbody ratio = %r' % r,
                                 vector=dict(v, what='eclipse', w=wi))
         else:
@@ -137,15 +183,16 @@ def check_vector_group(ctx, tp, vecs, cache):
                 fl, _ = fx.bsum_float(v['flux'][wi], bc[wi])
                 # law: direct / (2 pi F Rp^2 / d^2) is one constant (not pinned)
                 denom = 2.0 * math.pi * fl * (di.rp_m / di.d_m) ** 2
-                cache['direct_ratios'].append((float(dflux[wi]) / denom, cls, dict(v, what='direct', w=wi)))
+                cache['direct_ratios'].append((float(dflux[wi]) / denom, cls, dict(v, what='direct', w=wi), REL))
       except Exception as ex:
-        code_raised(ctx, ex, 'vector:' + cls_of(v), dict(v, what='raise'))
-    ctx.add_sample(dict(vector=dict(e=v0['e'], tp=tp, quad=v0['quad'], kind=v0['kind'],
+        code_raised(ctx, ex, ip.prefix + 'vector:' + cls_of(v), dict(v, what='raise'))
+    ctx.add_sample(dict(vector=dict(e=v0['e'], tp=tp, quad=v0['quad'], kind=v0['kind'], reading=ip.id,
                                     intensity_terms=v0['inten'][0][0])))
 
 
-def run_vectors(ctx, cfg, label, ratios):
-    res = ctx.check_spec('export-' + label, 'MC_Emission', cfg, workers=1, deque=True)
+def run_vectors(ctx, cfg, label, ratios, res=None):
+    if res is None:
+        res = ctx.check_spec('export-' + label, 'MC_Emission', cfg, workers=1, deque=True)
     vecs = res.tagged('VEC')
     if not vecs:
         raise Machinery('no vectors exported by ' + cfg)
@@ -159,13 +206,62 @@ def run_vectors(ctx, cfg, label, ratios):
     return len(vecs)
 
 
+_INTERPS = {}
+
+
+def interps_of(res, cfg):
+    """INTERP records exported by TLC (spec/MC_Emission.tla: InterpExport) -> {idx: Interp}; the first entry of the
+    specification's table must be the reading the driver uses for every other export."""
+    out = {}
+    for d in res.tagged('INTERP'):
+        out[d['idx']] = Interp(d)
+    if 1 in out and out[1].rel > REL:
+        raise Machinery('%s: the tolerance the specification derives for the driver\'s own reading (%r) exceeds REL' % (cfg, out[1].rel))
+    if 1 not in out or not out[1].matches_driver():
+        raise Machinery('%s: entry 1 of InterpTable is not the driver\'s reading WN=%r TK=%r star=%r' % (cfg, WN, TK, STAR_T))
+    if len(out) < 4 or not any(len(d['decades']) >= 3 for d in res.tagged('INTERP')) or \
+            sum(1 for d in res.tagged('INTERP') if d['spacing'] == 'close') < 2:
+        raise Machinery('%s exports too few readings of the Planck table (%r)' % (cfg, sorted(i.id for i in out.values())))
+    _INTERPS[cfg] = out
+    return out
+
+
+def run_interp_vectors(ctx, cfg, label, ratios, res=None):
+    """Binding A over the readings of the Planck table: every vector of the (small) export is replayed under every
+    exported reading other than the driver's own -- layer temperatures 1e-3 .. 1e-8 apart, Rayleigh-Jeans and Wien
+    regimes -- and compared with the exact B-sum at the tolerance the specification derives for that reading."""
+    if res is None:
+        res = ctx.check_spec('export-' + label, 'MC_Emission', cfg, workers=1, deque=True)
+    vecs = res.tagged('VEC')
+    ips = interps_of(res, cfg)
+    if not vecs:
+        raise Machinery('no vectors exported by ' + cfg)
+    # what makes a stale / approximate source function observable: distinct temperatures in layers that all carry weight
+    sharp = [v for v in vecs if not v['isothermal'] and not v['saturated'] and all(any(x > 0 for x in row) for row in v['e'])]
+    if len(sharp) < 20 or not any(v['isothermal'] for v in vecs):
+        raise Machinery('%s exports too few vectors in which every layer at its own temperature carries weight (%d)' % (cfg, len(sharp)))
+    groups = {}
+    for v in vecs:
+        groups.setdefault(tuple(v['tp']), []).append(v)
+    cache = dict(bstar_spec=[7, 11], direct_ratios=ratios)
+    for idx in sorted(ips):
+        if idx == 1:
+            continue
+        for tp, g in sorted(groups.items()):
+            check_vector_group(ctx, list(tp), g, cache, ips[idx])
+    fx.reset_all()
+    return len(vecs) * (len(ips) - 1)
+
+
 def finish_direct_law(ctx, ratios):
     if not ratios:
         return
-    ref = sorted(r for r, _, _ in ratios)[len(ratios) // 2]
+    ref = sorted(it[0] for it in ratios)[len(ratios) // 2]
     ok_ref = ref > 0 and math.isfinite(ref)
-    for r, cls, vec in ratios:
-        ctx.verdict('direct_image_proportional', ok_ref and abs(r - ref) <= REL * abs(ref), cls=cls,
+    for it in ratios:
+        r, cls, vec = it[:3]
+        tol = it[3] if len(it) > 3 else REL          # readings of the Planck table carry their own licensed rounding
+        ctx.verdict('direct_image_proportional', ok_ref and abs(r - ref) <= tol * abs(ref), cls=cls,
                     detail='direct/(flux Rp^2/d^2) = %r, median %r' % (r, ref), vector=vec)
 
 
@@ -179,13 +275,16 @@ def kcls_of(v):
                                                len(v['kk']), v['ng'])
 
 
-def check_kvector_group(ctx, d, tp, vecs, cache):
+def check_kvector_group(ctx, d, tp, vecs, cache, ip=None):
     """All exported k-table vectors with one temperature profile: one emission + one direct-image model, both
-    constructed and evaluated under opacity_method='ktables' on a pickle table written per vector."""
+    constructed and evaluated under opacity_method='ktables' on a pickle table written per vector; `ip` = reading of
+    the Planck table (default: the driver's)."""
+    ip = ip or Interp()
+    WN, TK, STAR_T, REL, ISO = ip.wn, ip.tk, ip.star, ip.rel, ip.iso_tol
     nw = len(vecs[0]['kk'][0])
     ng = vecs[0]['ng']
     wn = WN[:nw]
-    bc = bcols()
+    bc = ip.bcols()
     temps = [TK[t] for t in tp]
     v0 = vecs[0]
     rp, rs, dist = v0['rp'], v0['rs'], v0['dist']
@@ -195,7 +294,9 @@ def check_kvector_group(ctx, d, tp, vecs, cache):
     bstar = [fx.planck_b(w, STAR_T) for w in wn]
     done = {}
     for v in vecs:
-      cls = kcls_of(v)
+      if ip.prefix:
+          v = dict(v, interp=ip.idx)
+      cls = ip.prefix + kcls_of(v)
       try:
         key = (repr(v['kk']), repr(v['c']), v['wid'], v['qid'])
         if key not in done:
@@ -217,7 +318,7 @@ def check_kvector_group(ctx, d, tp, vecs, cache):
                                 detail='k-table mode, angle 1/mu=%s wn=%s got %r expected %r' % (v['quad'][a][0], wn[wi], got, exp),
                                 vector=dict(v, what='kintensity', a=a, w=wi))
                     lo, hi = bc[wi][v['tmin']], bc[wi][v['tmax']]       # no clamp in this branch: no slack
-                    ctx.verdict('hot_cold_bounds', lo * (1 - 1e-12) <= got <= hi * (1 + 1e-12), cls=cls,
+                    ctx.verdict('hot_cold_bounds', lo * (1 - ISO) <= got <= hi * (1 + ISO), cls=cls,
                                 detail='k-table mode, got %r not in [%r, %r]' % (got, lo, hi), vector=dict(v, what='kintensity', a=a, w=wi))
         I, flux, dflux = done[key]
         if v['kind'] == 'eclipse':
@@ -230,13 +331,13 @@ def check_kvector_group(ctx, d, tp, vecs, cache):
                 if v['isothermal'] and v['weightsok']:
                     ratio = fx.planck_b(wn[wi], temps[0]) / bstar[wi] * (Fraction(rp, rs) ** 2)
                     r = got / float(ratio)
-                    ctx.verdict('isothermal_identity', 1 - 1e-12 <= r <= 1 + 1e-12, cls=cls,
+                    ctx.verdict('isothermal_identity', 1 - ISO <= r <= 1 + ISO, cls=cls,
                                 detail='k-table mode, flux/blackbody ratio = %r' % r, vector=dict(v, what='keclipse', w=wi))
         else:
             for wi in range(nw):
                 fl, _ = fx.bsum_float(v['flux'][wi], bc[wi])
                 denom = 2.0 * math.pi * fl * (di.a.rp_m / di.a.d_m) ** 2
-                cache['direct_ratios'].append((float(dflux[wi]) / denom, cls, dict(v, what='kdirect', w=wi)))
+                cache['direct_ratios'].append((float(dflux[wi]) / denom, cls, dict(v, what='kdirect', w=wi), REL))
       except Exception as ex:
         code_raised(ctx, ex, 'vector:' + cls, dict(v, what='kraise'))
         fx.set_mode('xsec')
@@ -244,8 +345,11 @@ def check_kvector_group(ctx, d, tp, vecs, cache):
                                     intensity_terms=v0['kint'][0][0])))
 
 
-def run_kvectors(ctx, cfg, label, ratios):
-    res = ctx.check_spec('export-' + label, 'MC_EmissionK', cfg, workers=1, deque=True)
+def run_kvectors(ctx, cfg, label, ratios, res=None, interps=()):
+    """`interps`: further readings of the Planck table (exported from spec/MC_Emission.tla) under which the vectors
+    that pin the formula down (visible surface, coefficients differing across the points) are replayed as well."""
+    if res is None:
+        res = ctx.check_spec('export-' + label, 'MC_EmissionK', cfg, workers=1, deque=True)
     vecs = res.tagged('VEC')
     # what makes the position of the slant factor observable: coefficients that differ across the points,
     # a surface that is still seen, an angle with 1/mu > 1
@@ -259,6 +363,10 @@ def run_kvectors(ctx, cfg, label, ratios):
     with fx.TempDir() as d:
         for (tp, ng, nw), g in sorted(groups.items()):
             check_kvector_group(ctx, d, list(tp), g, cache)
+            gs = [v for v in g if v['visible'] and (not v['degenerate'] or v['isothermal'])]
+            for ip in interps:
+                if gs:
+                    check_kvector_group(ctx, d, list(tp), gs, cache, ip)
     fx.reset_all()
     return len(vecs)
 
@@ -376,8 +484,9 @@ def check_walk_group(ctx, kind, tp, sid, walks, cache):
     ctx.traces += len(walks)
 
 
-def run_calls(ctx, cfg, label, ratios, only=None):
-    res = ctx.check_spec('calls-' + label, 'MC_EmissionCalls', cfg, workers=1, deque=True)
+def run_calls(ctx, cfg, label, ratios, only=None, res=None):
+    if res is None:
+        res = ctx.check_spec('calls-' + label, 'MC_EmissionCalls', cfg, workers=1, deque=True)
     walks = res.tagged('WALK')
     if cfg == 'MC_EmissionCalls_quick.cfg':
         call_walks(ctx, res)
@@ -400,16 +509,44 @@ def run_calls(ctx, cfg, label, ratios, only=None):
 
 
 
-def check_planck(ctx):
-    """Separate clause: the repository's black_body against the harness's table (1e-10)."""
+HC_K_CM = fx.H_PLANCK * fx.C_LIGHT / fx.K_BOLTZ * 100.0        # h c / k in cm K
+
+
+def planck_events(ctx, add, rng):
+    """The repository's black_body against the harness's plain-Python evaluation over the whole regime of
+    x = h c nu / k T (1e-4 .. 480: 1 .. 50000 cm^-1, 50 .. 40000 K; jittered per seed so that a switch-over point of a
+    series / asymptotic form can sit anywhere), one `planck` event per pair, judged by TLC against the rounding the
+    documented formula may carry (spec/PlanckTol.tla)."""
     from taurex.util.emission import black_body
-    wn = np.array([200.0, 800.0, 2500.0, 9000.0, 25000.0])
-    for T in (300.0, 600.0, 1100.0, 1700.0, 3000.0, 5000.0, 6500.0):
-        got = black_body(wn, T)
+    wns = [f * rng.uniform(0.7, 1.4) for f in (1, 2, 5, 10, 20, 50, 100, 200, 500, 1000, 2000, 5000, 10000, 20000, 45000)]
+    wns += [10 ** rng.uniform(0.0, 4.6) for _ in range(6)]
+    Ts = [f * rng.uniform(0.75, 1.3) for f in (50, 100, 200, 400, 800, 1500, 3000, 6000, 12000, 25000, 40000)]
+    wn = np.array(sorted(wns))
+    n = 0
+    for T in Ts:
+        try:
+            got = np.asarray(black_body(wn, T), dtype=float)
+            if got.shape != wn.shape:
+                raise fxc.BadReturn('black_body(array of %d wavenumbers, %r) returned shape %r' % (len(wn), T, got.shape))
+        except fxc.BadReturn as ex:
+            ctx.verdict('planck_table', False, cls='planck:shape', detail=str(ex), vector=dict(what='planck', T=T))
+            continue
+        except Exception as ex:
+            code_raised(ctx, ex, 'planck', dict(what='planck', T=T))
+            continue
         for i, w in enumerate(wn):
+            x = HC_K_CM * w / T
+            if not 1.05e-4 <= x <= 480.0:
+                continue
             exp = fx.planck_flux(w, T)
-            ctx.verdict('planck_table', close(got[i], exp, rel=1e-10), cls='planck', detail='wn=%s T=%s got %r expected %r' % (w, T, got[i], exp),
-                        vector=dict(what='planck', wn=float(w), T=T))
+            dev = abs(float(got[i]) / exp - 1.0) if math.isfinite(float(got[i])) else float('inf')
+            err = 2 ** 30 - 1 if not dev < 1e-7 else int(math.ceil(dev / U16))
+            add(dict(ev='planck', xu=int(x * 1e4), err=err), 'planck:x~1e%d' % int(math.floor(math.log10(x))),
+                'wn=%r T=%r x=%.4g: got %r, documented formula %r (relative deviation %.3g)' % (float(w), T, x, float(got[i]), exp, dev),
+                dict(what='planck', wn=float(w), T=T, seed=ctx.seed))
+            n += 1
+    if n < 100:
+        raise Machinery('only %d Planck pairs inside the regime 1e-4 <= x <= 480' % n)
 
 
 # ----------------------------------------------------------------------------
@@ -451,6 +588,53 @@ def random_atmos(rng, kind, iso):
     a.total_tau = tot
     a.saturated = bool(tot.min() >= 10.0 - 1e-9)
     a.maybe_saturated = bool(tot.min() >= 10.0 - 1e-6)
+    return a
+
+
+def extreme_atmos(rng, kind, iso, j):
+    """The ends of the quantifier that the uniform draws of random_atmos never reach: many emission angles asked for
+    through the constructor keyword (size classes of spec/Trace_Emission.tla), 20..60 layers whose temperatures differ
+    by 1e-3 .. 1e-7 relative from layer to layer (finely layered nearly-isothermal stretches), far-infrared and
+    ultraviolet grids with cool / hot stars (Rayleigh-Jeans and Wien regimes of planet and star)."""
+    ngauss = pick_ngauss(rng, j)
+    regime = ('far_ir', 'uv', 'mid')[(j + j // 6) % 3]
+    n = rng.randint(20, 60)
+    nw = rng.randint(2, 5)
+    if regime == 'far_ir':
+        wn = sorted(10 ** rng.uniform(1.0, 2.5) for _ in range(nw))
+        star_T = rng.uniform(3000.0, 7000.0)
+    elif regime == 'uv':
+        wn = sorted(10 ** rng.uniform(3.95, 4.6) for _ in range(nw))
+        star_T = rng.uniform(3000.0, 12000.0)
+    else:
+        wn = sorted(rng.uniform(300.0, 9000.0) for _ in range(nw))
+        star_T = rng.uniform(3000.0, 7000.0)
+    t0 = rng.uniform(300.0, 2500.0)
+    if iso:
+        temps, prof = [t0] * n, 'isothermal'
+    else:
+        k = rng.choice([3, 4, 5, 6, 7])
+        step = 10.0 ** -k * rng.choice([-1.0, 1.0])
+        temps, prof = [t0 * (1.0 + step * i) for i in range(n)], 'steps1e-%d' % k
+    a = fx.Atmos(kind, temps, wn, star_T=star_T, mix=10 ** rng.uniform(-6, -2),
+                 planet_radius=rng.uniform(0.3, 2.0), planet_mass=rng.uniform(0.3, 3.0),
+                 star_radius=rng.uniform(0.3, 2.0), distance=rng.uniform(1.0, 50.0),
+                 pmin=10 ** rng.uniform(-2, 1), pmax=10 ** rng.uniform(4, 6.5), ngauss=ngauss,
+                 with_grey=rng.random() < 0.4)
+    mag = rng.choice([0.0, 1e-3, 0.1, 0.3, 1.0, 3.0])
+    e = [[mag * rng.choice([0.0, 0.2, 1.0, 1.7]) * rng.uniform(0.5, 1.5) for _ in range(nw)] for _ in range(n)]
+    a.set_layer_tau(e)
+    tot = np.sum(np.array(e), axis=0) * fx.LN2
+    a.tau_of = {'Absorption': tot.copy()}
+    if a.grey is not None:
+        c = [[rng.choice([0.0, 0.05, 0.5]) * rng.uniform(0.5, 1.5) for _ in range(nw)] for _ in range(n)]
+        a.set_grey_tau(c)
+        a.tau_of['LayerGrey'] = np.sum(np.array(c), axis=0) * fx.LN2
+        tot = tot + a.tau_of['LayerGrey']
+    a.total_tau = tot
+    a.saturated = bool(tot.min() >= 10.0 - 1e-9)
+    a.maybe_saturated = bool(tot.min() >= 10.0 - 1e-6)
+    a.klass = 'extreme:%s:%s' % (regime, prof)
     return a
 
 
@@ -562,15 +746,118 @@ def replay_calls_on_random(ctx, a, kind, kmode, iso, calls, add, vec, cls0, r0):
 
 
 
-def run_traces(ctx, n_models, n_k=0):
+NG_CLASSES = [(1, 1), (2, 4), (5, 8), (9, 16), (17, 32), (33, 64)]      # spec/Trace_Emission.tla: NClass
+
+
+def pick_ngauss(rng, i):
+    lo, hi = NG_CLASSES[i % len(NG_CLASSES)]
+    return rng.randint(lo, hi)
+
+
+def exact_moments(mu, w, K):
+    """sum_i w_i mu_i^k for k < K, exactly (the floats are dyadic rationals), rounded once."""
+    mr = [float(x).as_integer_ratio() for x in mu]
+    wr = [float(x).as_integer_ratio() for x in w]
+    A = max(d.bit_length() - 1 for _, d in mr)
+    B = max(d.bit_length() - 1 for _, d in wr)
+    M = [n * (1 << A) // d for n, d in mr]
+    W = [n * (1 << B) // d for n, d in wr]
+    P = [1] * len(M)
+    out = []
+    for k in range(K):
+        out.append(sum(wi * pi for wi, pi in zip(W, P)) / (1 << (B + A * k)))
+        P = [pi * mi for pi, mi in zip(P, M)]
+    return out
+
+
+def evaluate_and_log(ctx, a, kind, iso, kmode, route, req, add, direct, vec):
+    """partial_model() + model() of one random atmosphere: the quadrature it integrates over (number of points asked
+    for through `route`, Gauss-Legendre facts on the nodes / weights the evaluation itself returns), hot/cold bounds,
+    the isothermal identity, the direct-image law.  Returns (output, 2F per unit pi, class)."""
+    m = a.model
+    I, imu, w, _ = m.partial_model()
+    _, out, _, _ = m.model()
+    I = np.asarray(I, dtype=float)
+    nq = I.shape[0] if I.ndim == 2 else -1
+    qcls = 'quad:%s:%s:ngauss%d' % (route, kind, req)
+    # "integrated over emission angle by Gauss-Legendre quadrature" with the number of points asked for
+    ok_n = nq == req and np.size(imu) == req and np.size(w) == req and len(m._mu_quads) == req
+    ctx.verdict('quadrature_points_as_requested', ok_n, cls=qcls,
+                detail='%s model asked (%s) for %d angles integrates over %d (returns %d slant factors, %d weights)'
+                       % (kind, route, req, nq, np.size(imu), np.size(w)), vector=vec)
+    if nq < 1 or I.shape != (nq, len(a.wn)) or np.size(imu) != nq or np.size(w) != nq or len(m._mu_quads) != nq \
+            or np.shape(out) != (len(a.wn),):
+        raise fxc.BadReturn('partial_model() / model() of a %s model with %d angles (%s) returned shapes %r, %r, %r, %r'
+                            % (kind, req, route, np.shape(I), np.shape(imu), np.shape(w), np.shape(out)))
+    ng = nq
+    # Gauss-Legendre facts of the quadrature actually used by this evaluation (returned 1/mu and weights; the stored
+    # nodes must be the same numbers)
+    imu_ = [float(x) for x in np.ravel(imu)]
+    wq = [float(x) for x in np.ravel(w)]
+    okq = all(math.isfinite(x) and x > 1.0 for x in imu_) and all(math.isfinite(x) and x > 0.0 for x in wq)
+    mu = [1.0 / x for x in imu_] if okq else [float(x) for x in m._mu_quads]
+    okq = okq and all(abs(x - float(y)) <= 4e-16 * x for x, y in zip(mu, m._mu_quads)) \
+        and all(x == float(y) for x, y in zip(wq, m._wi_quads))
+    add(dict(ev='quad', mu=[int(round(x * 10000)) for x in mu], w=[int(round(x * 10000)) for x in wq], S=10000, req=int(req), route=route),
+        'quad:%s:ngauss%d' % (route, ng), 'mu=%r w=%r' % (mu[:6], wq[:6]), vec)
+    # sharp, on the floats themselves: exactness for polynomials of degree <= 2n-1 on [0,1] (this pins the n-point rule:
+    # Gauss-Legendre is the only n-point rule of that degree).  Rounding of nodes / weights moves a moment by <= n u.
+    if okq:
+        okq = all(0.0 < x < 1.0 for x in mu)
+        mom = exact_moments(mu, wq, 2 * ng)
+        okq = okq and all(abs(mom[k] - 1.0 / (k + 1)) <= 1e-13 for k in range(2 * ng))
+    ctx.verdict('gauss_legendre_exact_degree', okq, cls='quad:%s:ngauss%d' % (route, ng), detail='mu=%r w=%r' % (mu[:8], wq[:8]), vector=vec)
+    slack = 1 if a.maybe_saturated else 0
+    cls0 = '%s%s:%s:%s:ngauss%d%s' % ('ktable:' if kmode else '', 'iso' if iso else 'noniso', 'sat' if a.saturated else 'unsat', kind, ng,
+                                     '' if route == 'constructor' else ':' + route)
+    if getattr(a, 'klass', None):
+        cls0 = a.klass + ':' + cls0
+    tmin, tmax = min(a.temps), max(a.temps)
+    rI_lo, rI_hi, rF_lo, rF_hi = [], [], [], []
+    twoF = 2.0 * np.sum(I * (w / imu), axis=0)      # per unit pi: flux_total / pi, from the model's own I
+    for wi, wnv in enumerate(a.wn):
+        blo, bhi = fx.planck_b(wnv, tmin), fx.planck_b(wnv, tmax)
+        for ai in range(I.shape[0]):
+            rI_lo.append(float(I[ai][wi]) / blo)
+            rI_hi.append(float(I[ai][wi]) / bhi)
+        if kind == 'emission':
+            bs = fx.planck_b(wnv, a.star_T)
+            geo = (a.rp_m / a.rs_m) ** 2
+            rF_lo.append(float(out[wi]) / (blo / bs * geo))
+            rF_hi.append(float(out[wi]) / (bhi / bs * geo))
+        else:
+            direct.append((float(out[wi]) / (math.pi * twoF[wi] * (a.rp_m / a.d_m) ** 2), cls0, vec))
+    # one event per model: extreme ratios (min of value/cold, max of value/hot)
+    add(dict(ev='bounds', lo=scaled(min(rI_lo)), hi=scaled(max(rI_hi)), S=S_TRACE, sat=slack, iso=0),
+        cls0 + ':intensity', 'I/B_cold >= %r, I/B_hot <= %r' % (min(rI_lo), max(rI_hi)), vec)
+    if kind == 'emission':
+        add(dict(ev='bounds', lo=scaled(min(rF_lo)), hi=scaled(max(rF_hi)), S=S_TRACE, sat=slack, iso=0),
+            cls0 + ':flux', 'F/ratio_cold >= %r, F/ratio_hot <= %r' % (min(rF_lo), max(rF_hi)), vec)
+    if iso:
+        add(dict(ev='bounds', lo=scaled(min(rI_lo)), hi=scaled(max(rI_lo)), S=S_TRACE, sat=slack, iso=1),
+            cls0 + ':intensity_identity', 'I/B in [%r, %r]' % (min(rI_lo), max(rI_lo)), vec)
+        # sharp (1e-12), on the floats
+        lo_ok = min(rI_lo) >= 1 - 1e-12 and max(rI_lo) <= 1 + (EXP_M10 if a.maybe_saturated else 0.0) + 1e-12
+        ctx.verdict('isothermal_identity', lo_ok, cls=cls0, detail='I/B in [%r, %r]' % (min(rI_lo), max(rI_lo)), vector=vec)
+        if kind == 'emission':
+            f_ok = min(rF_lo) >= 1 - 1e-12 and max(rF_lo) <= 1 + (EXP_M10 if a.maybe_saturated else 0.0) + 1e-12
+            ctx.verdict('isothermal_identity', f_ok, cls=cls0, detail='flux/(B(T)/B(T*)(Rp/Rs)^2) in [%r, %r]' % (min(rF_lo), max(rF_lo)), vector=vec)
+            add(dict(ev='bounds', lo=scaled(min(rF_lo)), hi=scaled(max(rF_lo)), S=S_TRACE, sat=slack, iso=1),
+                cls0 + ':flux_identity', 'flux ratio in [%r, %r]' % (min(rF_lo), max(rF_lo)), vec)
+    return out, twoF, cls0
+
+
+def run_traces(ctx, n_models, n_k=0, n_x=0, planck=False, require_cover=False):
     with fx.TempDir() as kpath:
-        _run_traces(ctx, n_models, n_k, kpath)
+        _run_traces(ctx, n_models, n_k, kpath, n_x, planck, require_cover)
 
 
-def _run_traces(ctx, n_models, n_k, kpath):
+def _run_traces(ctx, n_models, n_k, kpath, n_x=0, planck=False, require_cover=False):
     rng = random.Random(ctx.seed * 104729 + 2)
+    xrng = random.Random(ctx.seed * 104729 + 19)
     krng = random.Random(ctx.seed * 104729 + 7)
     wrng = random.Random(ctx.seed * 104729 + 13)
+    qrng = random.Random(ctx.seed * 104729 + 17)
     seqs = call_walks(ctx)
     events, meta = [], {}
     direct = []
@@ -580,10 +867,18 @@ def _run_traces(ctx, n_models, n_k, kpath):
         events.append(ev)
         meta[ev['id']] = (cls, detail, vec)
 
-    for i in range(n_models + n_k):
+    if planck:
+        planck_events(ctx, add, random.Random(ctx.seed * 104729 + 23))
+    for i in range(n_models + n_k + n_x):
         fx.reset_all()
-        kmode = i >= n_models
-        if kmode:
+        kmode = n_models <= i < n_models + n_k
+        xmode = i >= n_models + n_k
+        if xmode:
+            j = i - n_models - n_k
+            iso = (j % 2 == 0)
+            kind = 'direct' if j % 4 == 1 else 'emission'
+            vec = dict(trace=True, xmode=True, model_index=j, seed=ctx.seed)
+        elif kmode:
             j = i - n_models
             iso = (j % 2 == 0)
             kind = 'direct' if j % 4 == 3 else 'emission'
@@ -593,62 +888,18 @@ def _run_traces(ctx, n_models, n_k, kpath):
             kind = 'direct' if i % 5 == 4 else 'emission'
             vec = dict(trace=True, model_index=i, seed=ctx.seed)
         try:
-            a = random_katmos(krng, kpath, kind, iso) if kmode else random_atmos(rng, kind, iso)
+            a = extreme_atmos(xrng, kind, iso, j) if xmode else \
+                (random_katmos(krng, kpath, kind, iso) if kmode else random_atmos(rng, kind, iso))
             m = a.model
-            ng = len(m._mu_quads)
-            # "integrated over emission angle by Gauss-Legendre quadrature" with the number of points asked for
-            ctx.verdict('quadrature_points_as_requested', ng == a.ngauss, cls='quad:%s:ngauss%d' % (kind, a.ngauss),
-                        detail='%s model constructed with ngauss=%d integrates over %d angles' % (kind, a.ngauss, ng), vector=vec)
-            # Gauss-Legendre facts of the quadrature actually used by this model
-            mu = [float(x) for x in m._mu_quads]
-            wq = [float(x) for x in m._wi_quads]
-            add(dict(ev='quad', mu=[int(round(x * 10000)) for x in mu], w=[int(round(x * 10000)) for x in wq], S=10000),
-                'quad:ngauss%d' % ng, 'mu=%r w=%r' % (mu, wq), vec)
-            # sharp, on the floats themselves: exactness for polynomials of degree <= 2n-1 on [0,1]
-            okq = all(0.0 < x < 1.0 for x in mu)
-            for k in range(2 * ng):
-                s = sum(Fraction(w_) * Fraction(x) ** k for x, w_ in zip(mu, wq))
-                okq = okq and abs(float(s) - 1.0 / (k + 1)) <= 1e-13
-            ctx.verdict('gauss_legendre_exact_degree', okq, cls='quad:ngauss%d' % ng, detail='mu=%r w=%r' % (mu, wq), vector=vec)
-            I, imu, w, _ = m.partial_model()
-            _, out, _, _ = m.model()
-            slack = 1 if a.maybe_saturated else 0
-            cls0 = '%s%s:%s:%s:ngauss%d' % ('ktable:' if kmode else '', 'iso' if iso else 'noniso', 'sat' if a.saturated else 'unsat', kind, ng)
-            tmin, tmax = min(a.temps), max(a.temps)
-            rI_lo, rI_hi, rF_lo, rF_hi = [], [], [], []
-            twoF = 2.0 * np.sum(I * (w / imu), axis=0)      # per unit pi: flux_total / pi, from the model's own I
-            for wi, wnv in enumerate(a.wn):
-                blo, bhi = fx.planck_b(wnv, tmin), fx.planck_b(wnv, tmax)
-                for ai in range(I.shape[0]):
-                    rI_lo.append(float(I[ai][wi]) / blo)
-                    rI_hi.append(float(I[ai][wi]) / bhi)
-                if kind == 'emission':
-                    bs = fx.planck_b(wnv, a.star_T)
-                    geo = (a.rp_m / a.rs_m) ** 2
-                    rF_lo.append(float(out[wi]) / (blo / bs * geo))
-                    rF_hi.append(float(out[wi]) / (bhi / bs * geo))
-                else:
-                    direct.append((float(out[wi]) / (math.pi * twoF[wi] * (a.rp_m / a.d_m) ** 2), cls0, vec))
-            # one event per model: extreme ratios (min of value/cold, max of value/hot)
-            add(dict(ev='bounds', lo=scaled(min(rI_lo)), hi=scaled(max(rI_hi)), S=S_TRACE, sat=slack, iso=0),
-                cls0 + ':intensity', 'I/B_cold >= %r, I/B_hot <= %r' % (min(rI_lo), max(rI_hi)), vec)
-            if kind == 'emission':
-                add(dict(ev='bounds', lo=scaled(min(rF_lo)), hi=scaled(max(rF_hi)), S=S_TRACE, sat=slack, iso=0),
-                    cls0 + ':flux', 'F/ratio_cold >= %r, F/ratio_hot <= %r' % (min(rF_lo), max(rF_hi)), vec)
-            if iso:
-                add(dict(ev='bounds', lo=scaled(min(rI_lo)), hi=scaled(max(rI_lo)), S=S_TRACE, sat=slack, iso=1),
-                    cls0 + ':intensity_identity', 'I/B in [%r, %r]' % (min(rI_lo), max(rI_lo)), vec)
-                # sharp (1e-12), on the floats
-                lo_ok = min(rI_lo) >= 1 - 1e-12 and max(rI_lo) <= 1 + (EXP_M10 if a.maybe_saturated else 0.0) + 1e-12
-                ctx.verdict('isothermal_identity', lo_ok, cls=cls0, detail='I/B in [%r, %r]' % (min(rI_lo), max(rI_lo)), vector=vec)
-                if kind == 'emission':
-                    f_ok = min(rF_lo) >= 1 - 1e-12 and max(rF_lo) <= 1 + (EXP_M10 if a.maybe_saturated else 0.0) + 1e-12
-                    ctx.verdict('isothermal_identity', f_ok, cls=cls0, detail='flux/(B(T)/B(T*)(Rp/Rs)^2) in [%r, %r]' % (min(rF_lo), max(rF_lo)), vector=vec)
-                    add(dict(ev='bounds', lo=scaled(min(rF_lo)), hi=scaled(max(rF_lo)), S=S_TRACE, sat=slack, iso=1),
-                        cls0 + ':flux_identity', 'flux ratio in [%r, %r]' % (min(rF_lo), max(rF_lo)), vec)
+            out, twoF, cls0 = evaluate_and_log(ctx, a, kind, iso, kmode, 'constructor', a.ngauss, add, direct, vec)
             calls = seqs[wrng.randrange(len(seqs))]
             r0 = None if kind == 'emission' else np.asarray(out, dtype=float) / (math.pi * twoF * (a.rp_m / a.d_m) ** 2)
             replay_calls_on_random(ctx, a, kind, kmode, iso, calls, add, vec, cls0, r0)
+            # the other public route to the angle quadrature, on the SAME long-lived model: set_num_gauss(n), with n
+            # walking through the size classes of the specification (Trace_Emission: NClass)
+            n2 = pick_ngauss(qrng, i + 3)
+            m.set_num_gauss(n2)
+            evaluate_and_log(ctx, a, kind, iso, kmode, 'set_num_gauss', n2, add, direct, dict(vec, set_num_gauss=n2))
         except fxc.BadReturn as ex:
             ctx.verdict('evaluates_without_error', False, cls='trace:model', detail=str(ex), vector=vec)
         except Exception as ex:
@@ -669,24 +920,44 @@ def _run_traces(ctx, n_models, n_k, kpath):
         raise Machinery('Trace_Emission did not consume the whole trace:\n' + res.out[-1500:])
     badids = {b['id'] for b in bad}
     ctx.traces += len(events)
+    if require_cover:
+        # coverage of the quantifier is decided by the specification (Trace_Emission: QuadMissing, PlanckMissing)
+        cover = res.tagged('COVER')
+        if len(cover) != 1:
+            raise Machinery('Trace_Emission printed %d COVER records' % len(cover))
+        if cover[0]['quad'] or cover[0]['planck']:
+            raise Machinery('the trace does not cover the classes of the specification: (route, size class of ngauss) %r, decades of x %r'
+                            % (cover[0]['quad'], cover[0]['planck']))
     for ev in events:
         cls, detail, vec = meta[ev['id']]
-        ctx.verdict('trace_' + ev['ev'], ev['id'] not in badids, cls=cls, detail='TLC rejected event %r (%s)' % (ev, detail), vector=vec)
-    ctx.add_sample(dict(trace_event=events[1]))
+        clause = 'planck_table' if ev['ev'] == 'planck' else 'trace_' + ev['ev']
+        ctx.verdict(clause, ev['id'] not in badids, cls=cls, detail='TLC rejected event %r (%s)' % (ev, detail), vector=vec)
+    ctx.add_sample(dict(trace_event=[e for e in events if e['ev'] == 'bounds'][0]))
     # canary
     good = [e for e in events if e['id'] not in badids and e['ev'] == 'bounds']
     if not good:
+        if n_models + n_k + n_x == 0 or ctx.replay_mode:
+            return          # Planck pairs only (replay) / every bounds event rejected during a replay
         raise Machinery('no event available for the canary')
     c = dict(good[len(good) // 2])
     c['lo'] = c['lo'] - 5000 if c['lo'] <= c['S'] + 10 else c['S'] - 5000
     ok2, bad2, _ = validate_trace('Trace_Emission', 'Trace_Emission.cfg', [c])
     if ok2 or not bad2:
         raise Machinery('canary accepted: Trace_Emission is vacuous')
-    q = dict([e for e in events if e['ev'] == 'quad'][0])
+    q = dict([e for e in events if e['ev'] == 'quad' and e['id'] not in badids][0])
     q['w'] = [2 * x for x in q['w']]
-    ok3, bad3, _ = validate_trace('Trace_Emission', 'Trace_Emission.cfg', [q])
-    if ok3 or not bad3:
-        raise Machinery('canary (weights not halved) accepted: Trace_Emission is vacuous')
+    canaries = [q]
+    q2 = dict([e for e in events if e['ev'] == 'quad' and e['id'] not in badids][-1])
+    q2['req'] = q2['req'] + 1                                   # not the number of points asked for
+    canaries.append(q2)
+    pl = [e for e in events if e['ev'] == 'planck' and e['id'] not in badids and e['xu'] < 100]
+    if pl:
+        canaries.append(dict(pl[0], err=pl[0]['xu'] * 5000))    # the first-order series 1/x: off by x/2
+    for k, c_ in enumerate(canaries):
+        c_['id'] = k
+    ok3, bad3, _ = validate_trace('Trace_Emission', 'Trace_Emission.cfg', canaries)
+    if ok3 or len(bad3) != len(canaries):
+        raise Machinery('canaries (weights not halved / one point too few / Rayleigh-Jeans series) accepted: Trace_Emission is vacuous (%r)' % (bad3,))
 
 
 # ----------------------------------------------------------------------------
@@ -720,6 +991,50 @@ def run_histories(ctx, nwalks):
     fx.reset_all()
 
 
+class Prefetch:
+    """The TLC runs of this driver are independent of one another and of the Python-side replays: they are started
+    ahead (at most `width` JVMs at a time, in the order they will be needed) and their results are consumed in the
+    usual order.  Bookkeeping (ctx.add_tlc, vacuity / refutation checks of Ctx.check_spec / Ctx.expect_refuted) is
+    done by the consuming thread exactly as those methods do it."""
+
+    def __init__(self, width=3):
+        from concurrent.futures import ThreadPoolExecutor
+        self.pool = ThreadPoolExecutor(max_workers=width)
+        self.fut = {}
+
+    def submit(self, label, module, cfg, **kw):
+        from ..core import run_tlc
+        self.fut[label] = (self.pool.submit(run_tlc, module, cfg, **kw), module, cfg)
+
+    def result(self, label):
+        f, module, cfg = self.fut.pop(label)
+        return f.result(), module, cfg
+
+    def check_spec(self, ctx, label, need_actions=()):
+        res, module, cfg = self.result(label)
+        ctx.add_tlc(label, res)
+        if res.violated:
+            raise Machinery('spec %s/%s violates %s\n%s' % (module, cfg, res.violated, res.error_trace))
+        for a in need_actions:
+            if res.action_cov.get(a, (0, 0))[1] == 0:
+                raise Machinery('vacuous: action %s of %s never taken in %s' % (a, module, cfg))
+        if res.distinct == 0:
+            raise Machinery('TLC reported 0 states for %s/%s' % (module, cfg))
+        return res
+
+    def expect_refuted(self, ctx, label, invariant):
+        res, module, cfg = self.result(label)
+        ctx.add_tlc(label, res, counts=False)
+        if res.violated != invariant:
+            raise Machinery('expected TLC to refute %s in %s/%s, got %r' % (invariant, module, cfg, res.violated))
+        return res
+
+    def close(self):
+        for f, _, _ in self.fut.values():
+            f.cancel()
+        self.pool.shutdown(wait=True)
+
+
 def _tick(label, _t=[None]):
     import time
     if os.environ.get('VERIF_TIMING'):
@@ -750,51 +1065,105 @@ def run(ctx):
                        'call walks: a bare path_integral(grid) is only issued after model() / partial_model() / path_integral() '
                        '(the state model() documents as prepared); the walks of one configuration are replayed one after the other on one object',
                        'TLC + CommunityModules Json/IOUtils; exported term lists evaluated with Python Fractions']
-    ctx.check_spec('exhaustive', 'MC_Emission', 'MC_Emission_%s.cfg' % ctx.tier, deque=True,
-                   need_actions=('Surface', 'Layer', 'Integrate', 'Normalise'))
-    ctx.check_spec('exhaustive-quadratures', 'MC_Emission', 'MC_Emission_quads.cfg', deque=True)
+    pf = Prefetch(width=3)
+    try:
+        _run(ctx, q, pf)
+    finally:
+        pf.close()
+
+
+def _run(ctx, q, pf):
+    # ---- every TLC run of the driver, started ahead in the order the results are consumed
+    ex_cfgs = ['EX_Emission_quick.cfg', 'EX_Emission_quads.cfg'] if q else \
+              ['EX_Emission_thorough.cfg', 'EX_Emission_quads.cfg', 'EX_Emission_thorough4.cfg']
+    ip_cfg = 'EX_Emission_interp.cfg' if q else 'EX_Emission_interp_thorough.cfg'
+    k_cfgs = ['EX_EmissionK_quick.cfg', 'EX_EmissionK_quick3.cfg'] if q else ['EX_EmissionK_thorough.cfg', 'EX_EmissionK_quick3.cfg']
+    c_cfgs = ['MC_EmissionCalls_quick.cfg'] if q else ['MC_EmissionCalls_thorough.cfg', 'MC_EmissionCalls_thorough3.cfg']
+    pf.submit('export-' + ip_cfg[3:-4], 'MC_Emission', ip_cfg, workers=1, deque=True)
+    pf.submit('export-' + ex_cfgs[0][3:-4], 'MC_Emission', ex_cfgs[0], workers=1, deque=True)
+    pf.submit('export-' + k_cfgs[0][3:-4], 'MC_EmissionK', k_cfgs[0], workers=1, deque=True)       # the slowest export
+    for cfg in ex_cfgs[1:]:
+        pf.submit('export-' + cfg[3:-4], 'MC_Emission', cfg, workers=1, deque=True)
+    for cfg in k_cfgs[1:]:
+        pf.submit('export-' + cfg[3:-4], 'MC_EmissionK', cfg, workers=1, deque=True)
+    for cfg in c_cfgs:
+        pf.submit('calls-' + cfg[17:-4], 'MC_EmissionCalls', cfg, workers=1, deque=True)
+    refutes = [('refute-clamp-one-side', 'MC_Emission', 'MC_Emission_refute_clamp.cfg', 'Telescoping'),
+               ('refute-range-off-by-one', 'MC_Emission', 'MC_Emission_refute_range.cfg', 'IsothermalIdentity'),
+               ('refute-weights', 'MC_Emission', 'MC_Emission_refute_weights.cfg', 'FluxIsothermalIdentity'),
+               ('refute-source-reused-while-temperature-close', 'MC_Emission', 'MC_Emission_refute_source.cfg', 'PerLayerSource'),
+               ('refute-slant-outside-k-sum', 'MC_EmissionK', 'MC_EmissionK_refute_slant.cfg', 'EKTelescoping'),
+               ('refute-star-spectrum-rescaled-in-place', 'MC_EmissionCalls', 'MC_EmissionCalls_refute_sed.cfg', 'EveryPathDocumented')]
     if not q:
-        ctx.check_spec('exhaustive-4-layers', 'MC_Emission', 'MC_Emission_thorough4.cfg', deque=True)
-    ctx.check_spec('exhaustive-ktable', 'MC_EmissionK', 'MC_EmissionK_quick.cfg', deque=True,
-                   need_actions=('EKEmit', 'EKIntegrate', 'EKNormalise'))
-    ctx.check_spec('exhaustive-ktable-3-points', 'MC_EmissionK', 'MC_EmissionK_quick3.cfg', deque=True)
+        refutes += [('refute-star-spectrum-rescaled-in-place (shared arrays)', 'MC_EmissionCalls', 'MC_EmissionCalls_refute_sed_readonly.cfg', 'InputsReadOnly'),
+                    ('refute-opacity-rescaled-in-place', 'MC_EmissionCalls', 'MC_EmissionCalls_refute_opacity.cfg', 'EveryPathDocumented')]
+    for label, module, cfg, inv in refutes:
+        pf.submit(label, module, cfg, workers=1 if module == 'MC_EmissionCalls' else 2, allow_violation=True)
+    exhaustive = [('exhaustive', 'MC_Emission', 'MC_Emission_%s.cfg' % ctx.tier, ('Surface', 'Layer', 'Integrate', 'Normalise')),
+                  ('exhaustive-quadratures', 'MC_Emission', 'MC_Emission_quads.cfg', ())]
     if not q:
-        ctx.check_spec('exhaustive-ktable-3-layers', 'MC_EmissionK', 'MC_EmissionK_thorough.cfg', deque=True)
-    ctx.exhaustive = True
-    _tick('exhaustive')
-    ctx.expect_refuted('refute-clamp-one-side', 'MC_Emission', 'MC_Emission_refute_clamp.cfg', 'Telescoping')
-    ctx.expect_refuted('refute-range-off-by-one', 'MC_Emission', 'MC_Emission_refute_range.cfg', 'IsothermalIdentity')
-    ctx.expect_refuted('refute-weights', 'MC_Emission', 'MC_Emission_refute_weights.cfg', 'FluxIsothermalIdentity')
-    ctx.expect_refuted('refute-slant-outside-k-sum', 'MC_EmissionK', 'MC_EmissionK_refute_slant.cfg', 'EKTelescoping')
-    _tick('refutations')
-    check_planck(ctx)
-    cfgs = ['EX_Emission_quick.cfg', 'EX_Emission_quads.cfg'] if q else \
-           ['EX_Emission_thorough.cfg', 'EX_Emission_quads.cfg', 'EX_Emission_thorough4.cfg']
+        exhaustive += [('exhaustive-4-layers', 'MC_Emission', 'MC_Emission_thorough4.cfg', ()),
+                       # the stale-source variant satisfies every OTHER clause: only PerLayerSource (and the exact vectors) see it
+                       ('consequences-blind-to-stale-source', 'MC_Emission', 'MC_Emission_refute_source_others.cfg', ())]
+    exhaustive += [('exhaustive-ktable', 'MC_EmissionK', 'MC_EmissionK_quick.cfg', ('EKEmit', 'EKIntegrate', 'EKNormalise')),
+                   ('exhaustive-ktable-3-points', 'MC_EmissionK', 'MC_EmissionK_quick3.cfg', ())]
+    if not q:
+        exhaustive += [('exhaustive-ktable-3-layers', 'MC_EmissionK', 'MC_EmissionK_thorough.cfg', ())]
+    for label, module, cfg, acts in exhaustive:
+        pf.submit(label, module, cfg, workers=6, deque=True, coverage=bool(acts))
+    _tick('submitted')
+
+    # ---- binding A
     ratios = []          # the direct-image constant is one number over BOTH opacity modes
-    for cfg in cfgs:
-        run_vectors(ctx, cfg, cfg[3:-4], ratios)
+    res = pf.check_spec(ctx, 'export-' + ip_cfg[3:-4])
+    run_interp_vectors(ctx, ip_cfg, ip_cfg[3:-4], ratios, res=res)
+    _tick('vectors ' + ip_cfg)
+    ips = _INTERPS[ip_cfg]
+    for cfg in ex_cfgs:
+        run_vectors(ctx, cfg, cfg[3:-4], ratios, res=pf.check_spec(ctx, 'export-' + cfg[3:-4]))
         _tick('vectors ' + cfg)
-    for cfg in (['EX_EmissionK_quick.cfg', 'EX_EmissionK_quick3.cfg'] if q else ['EX_EmissionK_thorough.cfg', 'EX_EmissionK_quick3.cfg']):
-        run_kvectors(ctx, cfg, cfg[3:-4], ratios)
+    # correlated-k mode under two further readings: the closest spacing TLC exported and the one spanning most decades of x
+    close_ips = sorted((i for i in ips.values() if i.prefix and 'close' in i.id), key=lambda i: i.idx)
+    kips = close_ips[-1:] + [i for i in ips.values() if i.id == 'farir']
+    for n_, cfg in enumerate(k_cfgs):
+        run_kvectors(ctx, cfg, cfg[3:-4], ratios, res=pf.check_spec(ctx, 'export-' + cfg[3:-4]),
+                     interps=kips if (n_ == len(k_cfgs) - 1 or not q) else ())
         _tick('vectors ' + cfg)
-    ctx.expect_refuted('refute-star-spectrum-rescaled-in-place', 'MC_EmissionCalls', 'MC_EmissionCalls_refute_sed.cfg', 'EveryPathDocumented', workers=1)
-    if not q:
-        ctx.expect_refuted('refute-star-spectrum-rescaled-in-place (shared arrays)', 'MC_EmissionCalls', 'MC_EmissionCalls_refute_sed_readonly.cfg',
-                           'InputsReadOnly', workers=1)
-        ctx.expect_refuted('refute-opacity-rescaled-in-place', 'MC_EmissionCalls', 'MC_EmissionCalls_refute_opacity.cfg', 'EveryPathDocumented', workers=1)
-    for cfg in (['MC_EmissionCalls_quick.cfg'] if q else ['MC_EmissionCalls_thorough.cfg', 'MC_EmissionCalls_thorough3.cfg']):
-        run_calls(ctx, cfg, cfg[17:-4], ratios)
+    # ---- binding C
+    for cfg in c_cfgs:
+        run_calls(ctx, cfg, cfg[17:-4], ratios, res=pf.check_spec(ctx, 'calls-' + cfg[17:-4]))
         _tick('calls ' + cfg)
     finish_direct_law(ctx, ratios)
-    run_traces(ctx, 60 if q else 600, 16 if q else 160)
+    # ---- binding B
+    run_traces(ctx, 60 if q else 600, 16 if q else 160, 12 if q else 120, planck=True, require_cover=True)
     _tick('traces')
     run_histories(ctx, 8 if q else 80)
     _tick('histories')
+    # ---- design-level runs (started at the beginning)
+    for label, module, cfg, inv in refutes:
+        pf.expect_refuted(ctx, label, inv)
+    _tick('refutations')
+    for label, module, cfg, acts in exhaustive:
+        pf.check_spec(ctx, label, need_actions=acts)
+    ctx.exhaustive = True
+    _tick('exhaustive')
+
+
+def replay_interp(vec, done):
+    """The reading of the Planck table a violated vector was replayed under, re-exported by TLC (InterpTable)."""
+    if not vec.get('interp'):
+        return None
+    if not done:
+        from ..core import run_tlc
+        done.update(interps_of(run_tlc('MC_Emission', 'EX_Emission_interp_thorough.cfg', workers=1, deque=True),
+                               'EX_Emission_interp_thorough.cfg'))
+    return done[vec['interp']]
 
 
 def replay(ctx, violations):
     """Vectors are replayed one by one; trace cases are regenerated from (seed, model index); histories are re-run."""
-    done_trace = done_ktrace = done_hist = False
+    done_trace = done_ktrace = done_hist = done_xtrace = done_planck = False
+    done_interp = {}
     done_calls = set()
     for v in violations:
         vec = v['vector'] or {}
@@ -807,12 +1176,17 @@ def replay(ctx, violations):
                 done_calls.add(key)
                 ratios = []
                 run_calls(ctx, cfg, 'replay', ratios, only=(vec['kind'], list(vec['tp']), vec['sid']))
-                for r, cls, vv in ratios:
+                for r, cls, vv in [it[:3] for it in ratios]:
                     ctx.verdict('direct_image_proportional', math.isfinite(r) and r > 0, cls=cls, detail='ratio %r' % r, vector=vv)
         elif vec.get('history'):
             if not done_hist:
                 run_histories(ctx, 8)
                 done_hist = True
+        elif vec.get('trace') and vec.get('xmode'):
+            if not done_xtrace:
+                ctx.seed = vec.get('seed', ctx.seed)
+                run_traces(ctx, 0, 0, max(vec.get('model_index', 0) + 1, 12))
+                done_xtrace = True
         elif vec.get('trace') and vec.get('kmode'):
             if not done_ktrace:
                 ctx.seed = vec.get('seed', ctx.seed)
@@ -824,17 +1198,20 @@ def replay(ctx, violations):
                 run_traces(ctx, max(vec.get('model_index', 0) + 1, 60))
                 done_trace = True
         elif vec.get('what') == 'planck':
-            check_planck(ctx)
+            if not done_planck:
+                ctx.seed = vec.get('seed', ctx.seed)
+                run_traces(ctx, 0, 0, 0, planck=True)
+                done_planck = True
         elif 'kint' in vec:
             cache = dict(bstar_spec=[7, 11], direct_ratios=[])
             with fx.TempDir() as d:
-                check_kvector_group(ctx, d, vec['tp'], [vec], cache)
-            for r, cls, vv in cache['direct_ratios']:
+                check_kvector_group(ctx, d, vec['tp'], [vec], cache, replay_interp(vec, done_interp))
+            for r, cls, vv in [it[:3] for it in cache['direct_ratios']]:
                 ctx.verdict('direct_image_proportional', math.isfinite(r) and r > 0, cls=cls, detail='ratio %r' % r, vector=vv)
         else:
             cache = dict(bstar_spec=[7, 11], direct_ratios=[])
-            check_vector_group(ctx, vec['tp'], [vec], cache)
-            for r, cls, vv in cache['direct_ratios']:
+            check_vector_group(ctx, vec['tp'], [vec], cache, replay_interp(vec, done_interp))
+            for r, cls, vv in [it[:3] for it in cache['direct_ratios']]:
                 # a single vector cannot establish the law; compare with the constant seen at the pinned commit's formula
                 ctx.verdict('direct_image_proportional', math.isfinite(r) and r > 0, cls=cls, detail='ratio %r' % r, vector=vv)
     fx.reset_all()
